@@ -447,17 +447,23 @@ public:
       return;
     }
     if (lower_is_open() && !lower_is_boundary_infinity()) {
-      add_assign_r(lower(), lower(), Boundary(1), ROUND_DOWN);
+      const Result r = add_assign_r(lower(), lower(), Boundary(1), ROUND_DOWN);
       floor_assign_r(lower(), lower(), ROUND_DOWN);
-      info().set_boundary_property(LOWER, OPEN, false);
+      // On overflow the bound has not moved: it must stay open.
+      if (result_overflow(r) == 0) {
+        info().set_boundary_property(LOWER, OPEN, false);
+      }
     }
     else {
       ceil_assign_r(lower(), lower(), ROUND_DOWN);
     }
     if (upper_is_open() && !upper_is_boundary_infinity()) {
-      sub_assign_r(upper(), upper(), Boundary(1), ROUND_UP);
+      const Result r = sub_assign_r(upper(), upper(), Boundary(1), ROUND_UP);
       ceil_assign_r(upper(), upper(), ROUND_UP);
-      info().set_boundary_property(UPPER, OPEN, false);
+      // On overflow the bound has not moved: it must stay open.
+      if (result_overflow(r) == 0) {
+        info().set_boundary_property(UPPER, OPEN, false);
+      }
     }
     else {
       floor_assign_r(upper(), upper(), ROUND_UP);
